@@ -62,10 +62,18 @@ RULE = (
     "comparisons / membership / slices over them, helper calls receiving the record's own lists and dicts, and every "
     "whitelisted constructor fed the record's OWN mutable values (dict elements of a dictlist, list fields, nested records, "
     "digest, command, bytes), each evaluated twice on a real record with plain mutable values (and the canary records): the "
-    "deep observation of the record before == after (checked for every case of every family, refused ones included).  Family "
+    "deep observation of the record before == after (checked for every case of every family, refused ones included; for real "
+    "records it includes the raw object state: instance-dict keys of grouped records, identity of member records, list "
+    "objects and slot values, recursively); a grouped record wrapping the canary record is in every family's record set and "
+    "grouped records sit in record / record[] fields of the mutable record.  Family "
     "'format': f-strings whose specification / conversion comes from constants and from record string fields holding "
     "'{0.__secret__}', '>{0.__init__.__globals__}', %-formatting with such text: dunder names inside such text count as spelled "
-    "by the expression, no read of them on a value by interpreter code."
+    "by the expression, no read of them on a value by interpreter code.  THOROUGH additionally: every entry point x every "
+    "shape x all 59 embedding contexts (file entry points x 4 contexts); every hostile shape as the argument of every refused "
+    "call target (strict) and inside 16 wrappers of the syntax family (2-level combinations, also over the syntax shapes "
+    "themselves); every (first selector, later hostile selector) order in child interpreters on both canary records (480); "
+    "20 000 plain + 80 000 deep random compositions per shard (deep: 2-5 nested contexts around a shape that is itself "
+    "wrapped 0-2 times as a refused call's argument or in a syntax construct)."
 )
 ASSUMPTIONS = [
     "a canary method called from the code of a documented helper function (lower/upper/field_*) or from a whitelisted "
@@ -83,7 +91,7 @@ ASSUMPTIONS = [
     "objects, the canaries' own log covers Python-level methods",
 ]
 SHARDS = {"quick": 8, "thorough": 16}
-BUDGET_S = {"quick": 150, "thorough": 900}
+BUDGET_S = {"quick": 600, "thorough": 1800}
 
 ANCHORS = [
     "flow.record.selector:Selector.match",
@@ -92,7 +100,7 @@ ANCHORS = [
     "flow.record.selector:resolve_attr_path",
 ]
 MARK = "frv_c09_trip"
-RECORDS = ("real-canary", "standin", "real-plain")
+RECORDS = ("real-canary", "standin", "real-plain", "grouped-canary")
 
 # ---- hostile shapes ----------------------------------------------------------------------------------
 # (name, category, expression, evaluates-its-forbidden-part-when-evaluated)
@@ -267,7 +275,7 @@ ARG_RECORDS = ("real-canary", "standin")
 # named method of a value may be invoked only where the helper documents it (DOCUMENTED_HELPER_METHODS) or inside a
 # field-type constructor / the regex engine; `fields(r.c)` calling r.c.gettypename() is an ordinary method call on a value.
 CANARY_ARGS = ["r.s", "r.n", "r.l", "r.k", "r.o", "r.o.fn", "[r.s, r.t]", "r.missing", "r.p", "r.q", "r.u", "r.sl"]
-HELPER_ARG_RECORDS = ("real-canary", "standin", "real-typed")
+HELPER_ARG_RECORDS = ("real-canary", "standin", "real-typed", "grouped-canary")
 HELPER_CALLS = [
     "lower({C})", "upper({C})", "name({C})", "names({C})", "get_type({C})", "has_field(r, {C})", 'has_field({C}, "s")', "fields({C})",
     'field_regex(r, {C}, "A")', 'field_regex(r, ["s"], {C})', 'field_regex({C}, ["s"], "A")',
@@ -294,7 +302,7 @@ TYPED_ATTRS = ["poke", "detonate", "upper", "isdigit", "bit_length", "fn", "stri
 TYPED_FORMS = ['Type.{T}.{A} == "x"', '"x" in Type.{T}.{A}', "Type.{T}.{A} == True", "Type.{T}.{A} != 1", "Type.{T}.{A} < 1", "Type.{T}.{A} >= 1",
                "Type.{T}.{A} in [1, 2]", "Type.{T}.{A} not in [1]", "not Type.{T}.{A} == 1", 'Type.{T}.{A} == "x" or Type.{T}.{A} == 1',
                "any(Type.{T}.{A} == q for q in [1, 2])", "Type.{T}.{A}", "[Type.{T}.{A}, 1] == 1"]
-TYPED_RECORDS = ("real-typed", "real-canary", "standin")
+TYPED_RECORDS = ("real-typed", "real-canary", "standin", "grouped-canary")
 # a legitimate call spelling first (earlier in the expression, or on an earlier record with the same Selector object), then
 # the hostile shape that re-uses the spelling through a generator variable: a cache of call verdicts must not let it through
 VERDICT_CACHE = [
@@ -311,9 +319,9 @@ VERDICT_CACHE_PRIMED = [  # real-plain is matched first with the same Selector o
 
 # ---- every public evaluation entry point of the interpreted engine ------------------------------------------------
 # (the compiled engine is documented as unsafe for untrusted queries and is deliberately NOT driven with hostile input)
-ENTRY_MEMORY = ["contains", "explain:all", "explain:branches", "explain:none", "explain-after-match", "make_selector:text", "make_selector:object",
+ENTRY_MEMORY = ["make_selector:text-after-force-compiled", "contains", "explain:all", "explain:branches", "explain:none", "explain-after-match", "make_selector:text", "make_selector:object",
                 "matcher.matches", "matcher.eval"]
-ENTRY_FILE = ["RecordStreamReader", "RecordReader:path:text", "RecordReader:path:Selector", "RecordReader:fileobj", "RecordReader:jsonfile",
+ENTRY_FILE = ["RecordReader:path:text-after-force-compiled", "RecordStreamReader", "RecordReader:path:text", "RecordReader:path:Selector", "RecordReader:fileobj", "RecordReader:jsonfile",
               "RecordReader:csvfile", "record_stream", "rdump -n -s"]
 SWALLOWING = ("record_stream", "rdump -n -s")  # catch the refusal by design: the observable refusal is "no record comes out"
 ENTRY_CONTEXTS = ["{H}", "({H}) == 1", "True and ({H})", "any(({H}) for q in [1, 2])"]
@@ -339,7 +347,16 @@ SYNTAX_SHAPES = [
     ("(await r.o)", False), ("-r.p", False), ("~r.n", False), ("r.p @ r.p", False), ("r.l[::-1]", False), ("[x for x in r.l]", False),
     ("{x: 1 for x in r.l}", False), ("[x.detonate() for x in r.l]", False), ("(lambda **k: 1)(**r.o)", False), ("str(*r.l, sep=r.o)", True),
 ]
-SYNTAX_RECORDS = ("real-canary", "standin", "real-typed")
+SYNTAX_RECORDS = ("real-canary", "standin", "real-typed", "grouped-canary")
+# must be refused although the policy model (calls / lambdas / dunder attributes and names) has no rule for them: a subscript
+# whose index is a string constant starting with '__' is a dunder attribute access in disguise (r['__class__'])
+DUNDER_SUBSCRIPTS = ['r["__class__"]', 'r["__init__"]', 'r["__dict__"]', 'r.o["__trip__"]', 'r.s["__class__"]', 'r["__class__"]["__mro__"]',
+                     'r["s"]["__trip__"]', 'Type["__class__"]', 'r["__trip__"] == 1', 'lower(r["__doc__"])', 'r.o["__dict__"]["fn"]',
+                     'any(x["__trip__"] for x in [r.s, r.o])', 'r[str("__cla") + "ss__"]', 'r["__class__"].__name__']
+# second level: a construct of the syntax family around any shape (thorough tier)
+SYNTAX_WRAPPERS = ["str(**({H}))", "str(*({H}))", "[*({H})]", "({H})[0]", "({H})[1:2]", 'f"{({H})}"', 'f"{r.s:{({H})}}"', "(({H}) if r.s else 1)",
+                   "(y := ({H}))", "{**({H})}", "{({H}): 1}", "lower(s=({H}))", "1 < ({H}) < 3", "[q for q in [({H})]]", "lower(*[({H})])",
+                   "(({H}), *r.l)"]
 # order of first use: the very first selector a fresh interpreter evaluates is one of these, then benign ones, then another
 COLD_FIRST = [
     "1 in (f(0) for f in [r.o.fn])", "1 not in (f() for f in [r.s.detonate])", '"x" in (x.detonate() for x in [r.s])',
@@ -375,7 +392,8 @@ MUTABLE_EXPR = [
     # helper calls that receive the record's own lists / dicts
     "lower(r.tags)", "upper(r.sl)", 'field_contains(r, ["tags"], ["a"])', 'field_equals(r, ["hashes", "tags"], ["a"])', "str(r.hashes)", "repr(r.tags)",
     "any(d for d in r.hashes)", 'any(x for x in r.tags + ["b"] + ["c"])', 'field_regex(r, ["tags"], "a")', "names(r.subs)", "all(lower(x) for x in r.sl)",
-    'any(d == 1 for d in r.hashes + r.hashes + r.hashes)', 'field_contains(r, Type.stringlist, ["xa"])', 'Type.string == "inner1"',
+    'any(d == 1 for d in r.hashes + r.hashes + r.hashes)', 'r.grp.tags + ["a"] + ["b"]', 'r.grp.s == "inner3"', "any(g.s for g in r.grps)", "r.grp.q",
+    'any(g.tags + ["x"] + ["y"] for g in r.grps)', "r.grp.nums * 1 * 2", 'Type.string == "other"', "str(r.grp.hashes)", 'lower(r.grp.s) == r.grp.q', 'field_contains(r, Type.stringlist, ["xa"])', 'Type.string == "inner1"',
 ]
 # every whitelisted constructor fed with the record's OWN mutable values
 CTOR_NAMES = ["string", "wstring", "bytes", "uri", "path", "varint", "uint16", "uint32", "float", "datetime", "digest", "boolean", "command", "stringlist",
@@ -385,7 +403,7 @@ CTOR_OWN_ARGS = ["any({F}(d) for d in r.hashes)", "{F}(r.tags)", "{F}(r.hashes)"
                  "{F}(r.dy)", "{F}(r.sl)", "any({F}(x) for x in r.sub.hashes)", "{F}(r.nums)", "{F}(r.paths)", "any({F}(x) for x in r.subs)"]
 MUTABLE_EXTRA = ['any(digest(d).md5 == "%s" for d in r.hashes)' % cn.MD5, 'all(digest(d) for d in r.hashes)', 'digest(r.hashes) == 1',
                  'any(digest(d).sha1 for x in r.subs for d in x.hashes)', 'any(stringlist(x.tags) for x in r.subs)', "dictlist(r.hashes) == r.hashes"]
-MUTABLE_RECORDS = ("real-mutable", "real-canary", "standin")
+MUTABLE_RECORDS = ("real-mutable", "real-canary", "standin", "grouped-canary")
 # f-strings / %-formatting with specification text from constants and from string fields ('{0.__secret__}' ...)
 FORMAT_EXPR = [
     'f"{r.o:{r.fmt}}"', "f\"{r.o:{'{0.__secret__}'}}\"", "f\"{r.s:{'{0.__trip__}'}}\" == \"x\"", 'f"{r.o!r:{r.fmt}}"', 'f"{r.o:>{r.n}}"', 'f"{r.p:{r.fmt2}}"',
@@ -438,7 +456,7 @@ def get_record(ctx, kind):
     recs = _records(ctx)
     if kind not in recs:
         rec = {"real-canary": cn.real_canary_record, "standin": cn.standin_record, "real-plain": cn.real_plain_record,
-               "real-typed": cn.real_typed_record, "real-mutable": cn.real_mutable_record}[kind]()
+               "real-typed": cn.real_typed_record, "real-mutable": cn.real_mutable_record, "grouped-canary": cn.grouped_canary_record}[kind]()
         if kind not in ("standin", "real-typed"):  # real-typed keeps plain objects in `record` typed fields on purpose
             observe.assert_typed(rec, "constructed")
         recs[kind] = rec
@@ -464,7 +482,11 @@ def value_ids(ctx, kind):
 
 
 def observation(rec):
-    return rec.state() if isinstance(rec, cn.StandIn) else observe.obs(rec)
+    """Canonical deep observation plus, for real records, the raw object state (instance-dict keys of grouped records, identity
+    of member records, lists and slot values): a cache written into the record by an evaluation changes the latter only."""
+    if isinstance(rec, cn.StandIn):
+        return rec.state()
+    return [observe.obs(rec), cn.raw_state(rec)]
 
 
 def setup(ctx):
@@ -583,25 +605,48 @@ def generate(ctx):
             idx += 1
     entry_shapes = [(sh["name"], sh["cat"], sh["expr"], sh["ev"]) for sh in SHAPES] + [("entry-extra#%d" % i, "dunder-attr", e, True)
                                                                                   for i, e in enumerate(ENTRY_EXTRA_SHAPES)]
+    # quick: 4 evaluating contexts; thorough: every embedding context of the main table
+    entry_contexts = [(c, True) for c in ENTRY_CONTEXTS] if ctx.quick else [(c["tpl"].replace("{v}", "q"), c["ev"]) for c in CONTEXTS]
     for si, (name, cat, e, ev) in enumerate(entry_shapes):
         for entry in ENTRY_MEMORY:
-            for ci, c in enumerate(ENTRY_CONTEXTS):
+            for ci, (c, cev) in enumerate(entry_contexts):
                 for rk in ARG_RECORDS:
                     if ctx.mine(idx):
-                        yield {"k": "hostile", "expr": c.replace("{H}", e), "ev": bool(ev), "rec": rk, "shape": name, "scat": cat, "ctx": "entryctx#%d" % ci,
-                               "ccat": "entry-point", "entry": entry}
+                        yield {"k": "hostile", "expr": c.replace("{H}", e), "ev": bool(ev and cev), "rec": rk, "shape": name, "scat": cat,
+                               "ctx": "entryctx#%d" % ci, "ccat": "entry-point", "entry": entry}
                     idx += 1
         for j, entry in enumerate(ENTRY_FILE):
-            if ctx.mine(si * (len(ENTRY_FILE) + 1) + j):  # rotate, so that every shard drives every entry point
-                yield {"k": "entryfile", "expr": e, "ev": bool(ev), "shape": name, "scat": cat, "entry": entry}
+            for ci, c in enumerate(ENTRY_CONTEXTS[:1] if ctx.quick else ENTRY_CONTEXTS):
+                if ctx.mine(si * 7 + j + ci):  # rotate, so that every shard drives every entry point
+                    yield {"k": "entryfile", "expr": c.replace("{H}", e), "ev": bool(ev), "shape": name, "scat": cat, "entry": entry}
+    if not ctx.quick:
+        # shapes nested inside shapes: every hostile shape as the argument of every refused call target (strict: the outer call
+        # is refused before its arguments are looked at), and inside every construct of the syntax family
+        for sh in SHAPES:
+            for tcat, target in ARG_TARGETS:
+                for pname, pos in ARG_POSITIONS[:3]:
+                    call = target.replace("{A}", pos.replace("{X}", "(%s)" % sh["expr"]))
+                    for rk in ARG_RECORDS:
+                        if ctx.mine(idx):
+                            yield {"k": "hostile", "expr": call, "ev": True, "rec": rk, "shape": "shape-in-argument:" + sh["name"], "scat": tcat,
+                                   "ctx": "bare", "ccat": "shape-in-shape", "strict": True, "acat": "nested-hostile-shape", "pos": pname}
+                        idx += 1
+        # (the hostile shapes assume the fields s, t, n, l, k, o: they run on the three records of the main table)
+        inner = [(sh["expr"], sh["ev"], RECORDS) for sh in SHAPES] + [(e, True, SYNTAX_RECORDS) for e, _ in SYNTAX_SHAPES]
+        for e, ev, recs in inner:
+            for wi, w in enumerate(SYNTAX_WRAPPERS):
+                for rk in recs:
+                    if ctx.mine(idx):
+                        yield {"k": "syntax", "expr": w.replace("{H}", e), "ev": bool(ev), "rec": rk, "shape": "wrapped:" + e, "scat": "call-syntax",
+                               "ctx": "wrapper#%d" % wi, "ccat": "syntax-2-level"}
+                    idx += 1
     mut = list(MUTABLE_EXPR) + MUTABLE_EXTRA + [a.replace("{F}", f) for f in CTOR_NAMES for a in CTOR_OWN_ARGS]
-    for e in mut:
+    for mi, e in enumerate(mut):
         for ci, c in enumerate(ARG_CONTEXTS[:3]):
-            for rk in MUTABLE_RECORDS:
-                if ctx.mine(idx):
+            for ri, rk in enumerate(MUTABLE_RECORDS):
+                if ctx.mine(mi + ci + ri):  # spread so that every shard sees every record
                     yield {"k": "syntax", "expr": c.replace("{H}", e), "ev": True, "rec": rk, "shape": e, "scat": "mutable-values", "ctx": "argctx#%d" % ci,
                            "ccat": "never-modifies", "twice": True}
-                idx += 1
     for e in FORMAT_EXPR:
         for ci, c in enumerate(ARG_CONTEXTS):
             for rk in ("real-canary", "standin", "real-typed", "real-mutable"):
@@ -609,6 +654,13 @@ def generate(ctx):
                     yield {"k": "syntax", "expr": c.replace("{H}", e), "ev": True, "rec": rk, "shape": e, "scat": "format-spec", "ctx": "argctx#%d" % ci,
                            "ccat": "format"}
                 idx += 1
+    for e in DUNDER_SUBSCRIPTS + module_names(ctx):
+        for ci, c in enumerate(ARG_CONTEXTS[:4]):
+            for ri, rk in enumerate(SYNTAX_RECORDS):
+                if ctx.mine(idx + ri):
+                    yield {"k": "syntax", "expr": c.replace("{H}", e), "ev": True, "rec": rk, "shape": e, "scat": "dunder-subscript-or-module-name",
+                           "ctx": "argctx#%d" % ci, "ccat": "must-refuse", "demand_refusal": True}
+            idx += 1
     for e, strict in SYNTAX_SHAPES:
         for ci, c in enumerate(ARG_CONTEXTS):
             for rk in SYNTAX_RECORDS:
@@ -616,9 +668,19 @@ def generate(ctx):
                     yield {"k": "syntax", "expr": c.replace("{H}", e), "ev": True, "rec": rk, "shape": e, "scat": "call-syntax", "ctx": "argctx#%d" % ci,
                            "ccat": "syntax", "strict": bool(strict), "acat": "unpacking", "pos": "call"}
                 idx += 1
-    for fi, first in enumerate(COLD_FIRST):
-        if ctx.mine(fi + (ctx.seed % 7)):
-            yield {"k": "coldfirst", "first": first, "second": COLD_SECOND[(fi + ctx.seed) % len(COLD_SECOND)], "rec": ("standin", "real-canary")[fi % 2]}
+    if ctx.quick:
+        for fi, first in enumerate(COLD_FIRST):
+            if ctx.mine(fi + (ctx.seed % 7)):
+                yield {"k": "coldfirst", "first": first, "second": COLD_SECOND[(fi + ctx.seed) % len(COLD_SECOND)], "rec": ("standin", "real-canary")[fi % 2]}
+    else:
+        # every (first selector of the process, later hostile selector) order on both canary records
+        n = 0
+        for first in COLD_FIRST:
+            for second in COLD_SECOND:
+                for rk in ("standin", "real-canary"):
+                    if ctx.mine(n):
+                        yield {"k": "coldfirst", "first": first, "second": second, "rec": rk}
+                    n += 1
     for t in TYPED_TYPES:
         for a in TYPED_ATTRS:
             for fi, f in enumerate(TYPED_FORMS):
@@ -656,8 +718,10 @@ def generate(ctx):
                                   "arg_contexts": len(ARG_CONTEXTS), "shapes": len(SHAPES), "contexts": len(CONTEXTS), "controls": len(CONTROLS) + len(DIRECT_CONTROLS),
                                   "records": len(RECORDS)} if ctx.shard == 0 else {})
     ctx.exhaustive = True  # the shapes x contexts x records table is run completely on every tier
-    for i in range(ctx.scale(400, 9000)):
+    for i in range(ctx.scale(400, 20000)):
         yield {"k": "rand", "s": subseed("c09", ctx.seed, ctx.shard, i)}
+    for i in range(ctx.scale(0, 80000)):
+        yield {"k": "rand", "s": subseed("c09", ctx.seed, ctx.shard, "deep", i), "deep": True}
 
 
 def random_shape(rng):
@@ -700,7 +764,7 @@ def random_shape(rng):
     return cat, expr, ev
 
 
-def build_random(seed):
+def build_random(seed, deep=False):
     rng = random.Random(seed)
     control = rng.random() < 0.2
     if control:
@@ -711,7 +775,21 @@ def build_random(seed):
     else:
         cat, expr, ev = random_shape(rng)
     names = []
-    for depth in range(rng.choice([1, 1, 2, 2, 3])):
+    if deep and not control:
+        # shapes nested inside shapes: the hostile shape becomes an argument of a refused call, or the operand of a construct
+        # of the syntax family (unpacking, display, subscript, f-string, conditional, walrus), possibly twice
+        for _ in range(rng.choice([0, 1, 1, 2])):
+            if rng.random() < 0.5:
+                tcat, target = rng.choice(ARG_TARGETS)
+                pos = rng.choice(ARG_POSITIONS)[1]
+                expr = target.replace("{A}", pos.replace("{X}", "(%s)" % expr))
+                names.append("in-argument-of:" + tcat)
+                ev = True  # the enclosing call is refused itself
+            else:
+                w = rng.choice(SYNTAX_WRAPPERS)
+                expr = w.replace("{H}", expr)
+                names.append("syntax-wrapper")
+    for depth in range(rng.choice([2, 3, 3, 4, 5] if deep else [1, 1, 2, 2, 3])):
         c = rng.choice(CONTEXTS)
         expr = embed(c, expr, "q%d" % depth)
         ev = ev and c["ev"]
@@ -819,7 +897,7 @@ def classify(case, tree):
 
 def execute(ctx, case):
     if case["k"] == "rand":
-        case = build_random(case["s"])
+        case = build_random(case["s"], case.get("deep", False))
         ctx.current_case = case
     if case["k"] == "entryfile":
         run_entry_file(ctx, case)
@@ -853,6 +931,16 @@ def build_invocation(ctx, entry, expr, rec):
         return sel, lambda: sel.explain_selector(rec, verbosity=v).result
     if entry == "make_selector:text":
         sel = S.make_selector(expr)
+        return sel, lambda: sel.match(rec)
+    if entry == "make_selector:text-after-force-compiled":
+        # the same text was requested compiled first (rdump's default): the later plain request must still be interpreted.
+        # A CompiledSelector coming back is reported without running the hostile expression through the compiled engine.
+        S.make_selector(expr, force_compiled=True)
+        sel = S.make_selector(expr)
+        if isinstance(sel, S.CompiledSelector):
+            ctx.violation(None, "make_selector(text) handed out a CompiledSelector after make_selector(text, force_compiled=True)",
+                          detail={"expression": expr})
+            return None, None
         return sel, lambda: sel.match(rec)
     if entry == "make_selector:object":
         sel = S.make_selector(S.Selector(expr), force_compiled=False)
@@ -899,6 +987,16 @@ def run_entry_file(ctx, case):
             elif entry == "RecordReader:fileobj":
                 with open(files["stream"], "rb") as fp:
                     count = len(list(RecordReader(fileobj=fp, selector=expr)))
+            elif entry == "RecordReader:path:text-after-force-compiled":
+                S.make_selector(expr, force_compiled=True)
+                rd = RecordReader(files["stream"], selector=expr)
+                try:
+                    inner = getattr(getattr(rd, "stream", rd), "selector", None)
+                    if isinstance(inner, S.CompiledSelector):
+                        raise AssertionError("compiled")
+                    count = len(list(rd))
+                finally:
+                    rd.close()
             elif entry.startswith("RecordReader:"):
                 kind = entry.split(":")[1]
                 sel = S.Selector(expr) if entry.endswith(":Selector") else expr
@@ -924,6 +1022,11 @@ def run_entry_file(ctx, case):
         except Exception as e:  # noqa: BLE001 - any exception class is a refusal
             raised = e
     calls = cw.drain()
+    if isinstance(raised, AssertionError) and str(raised) == "compiled":
+        ctx.violation(None, "a reader given selector TEXT filters with a CompiledSelector after the text was compiled once in the process",
+                      detail={"expression": expr, "entry_point": entry})
+        raised = None
+        count = 1
     detail = {"expression": expr, "entry_point": entry, "policy_model": [list(x) for x in forb][:4],
               "outcome": ("raised " + type(raised).__name__) if raised is not None else "%d records came out" % count}
     _, callnames = spelled(ast.parse(expr, mode="eval").body)
@@ -945,6 +1048,27 @@ def run_entry_file(ctx, case):
     ctx.nontrivial(entry, expr)
 
 
+def module_names(ctx):
+    """Bare names of everything importable from the flow.record.fieldtypes package that is not a whitelisted field type root or a
+    documented helper (os, sys, re, pathlib, warnings, FieldType ...): as operands they must be refused like any unknown name."""
+    cached = ctx.state.get("module_names")
+    if cached is None:
+        import flow.record.fieldtypes as ft
+
+        roots = {t.split(".")[0] for t in refselector._whitelist()}
+        skip = roots | set(refselector.HELPERS) | set(refselector.BUILTIN_CALLS) | {"r", "Type", "None", "True", "False"}
+        names = sorted(n for n in dir(ft) if not n.startswith("_") and n not in skip and n.isidentifier())
+        cached = []
+        for n in names:
+            cached.append(n)
+        for n in names[:12] + [x for x in ("os", "sys", "re", "pathlib", "warnings") if x in names]:
+            cached += ["str(%s) == 1" % n, "%s == 1 or r.s" % n]
+        cached += ['"secret" in str(os.environ)', "sys.modules", "os.environ", "re.compile", "pathlib.Path", "FieldType.default", "warnings.warn"]
+        ctx.state["module_names"] = cached
+        ctx.note("fieldtypes_package_names", len(names) if ctx.shard == 0 else 0)
+    return cached
+
+
 def run_cold_first(ctx, case):
     """Order of first use: a fresh interpreter whose very first selector is the hostile shape, then benign selectors, then a
     second hostile one.  Oracle as in-process: evaluated forbidden shape => raises; no named canary method is invoked by
@@ -956,11 +1080,14 @@ def run_cold_first(ctx, case):
 
     exprs = [case["first"]] + COLD_BENIGN + [case["second"], case["first"]]
     try:
+      for attempt in (0, 1):
         p = subprocess.run([sys.executable, "-W", "ignore", "-m", "verif.child_c09"], input=json.dumps({"rec": case["rec"], "exprs": exprs}),
-                           capture_output=True, text=True, timeout=300, cwd=os.path.dirname(os.path.dirname(os.path.dirname(os.path.abspath(__file__)))))
-        if p.returncode != 0:
+                           capture_output=True, text=True, timeout=1500, cwd=os.path.dirname(os.path.dirname(os.path.dirname(os.path.abspath(__file__)))))
+        if p.returncode == 0:
+            break
+        if attempt:
             raise RuntimeError("child exited with %s: %s" % (p.returncode, p.stderr[-400:]))
-        results = json.loads(p.stdout)["results"]
+      results = json.loads(p.stdout)["results"]
     except Exception as e:  # noqa: BLE001 - infrastructure, never a verdict
         ctx.event("cold_child_failed")
         ctx.note("cold_child_error", [repr(e)[:300]])
@@ -1034,6 +1161,8 @@ def run_case(ctx, case):
         ctx.event("skipped_control_forbidden_by_model")
         return
     must_raise = hostile and (bool(case["ev"]) or any(certain for _, certain in forb))
+    if case.get("demand_refusal"):
+        hostile = must_raise = True
     dunders, callnames = spelled(tree.body)
 
     rec = get_record(ctx, case["rec"])
@@ -1169,8 +1298,8 @@ def run_case(ctx, case):
         ctx.violation(key, "an audit tripwire fired during evaluation", detail=dict(detail, audit=trip.log[:6]))
     if after != before:
         ctx.violation(None, "evaluation modified the record",
-                      detail=dict(detail, diff=observe.first_diff(before, after) if not isinstance(before, dict) else
-                                  {"before": before["values"], "after": after["values"]}))
+                      detail=dict(detail, diff=(observe.first_diff(before[0], after[0]) or "raw object state: " + str(observe.first_diff(before[1], after[1])))
+                                  if not isinstance(before, dict) else {"before": before["values"], "after": after["values"]}))
         _records(ctx).pop(case["rec"], None)  # continue with a fresh record
 
     # -- verdict on refusal
